@@ -167,6 +167,9 @@ class Device(object):
         if not pkt.data.endswith(b'\0'):
             self.issue('open', 'OPEN destination %r is not NUL-terminated' % (pkt.data[:40],))
         dest = pkt.data.rstrip(b'\0')
+        who = getattr(self.env, 'who', None)
+        if who is not None:
+            self.env.open_by[pkt.a0] = who()
         for s in self.streams.values():
             if s.local == pkt.a0 and not s.host_closed:
                 self.issue('dup-id', 'OPEN reuses local id %d while that stream is still open' % pkt.a0)
